@@ -99,7 +99,7 @@ func b2i(b bool) int {
 var formatKind = map[string]string{"zng": "KZng", "zson": "KZson", "zjson": "KZjson", "json": "KJson", "csv": "KCsv", "tsv": "KCsv",
 	"zeek": "KZeek", "table": "KTable", "text": "KText", "vng": "KVng", "lake": "KLake", "arrows": "", "parquet": ""}
 var formatClass = map[string]string{"zng": "any", "zson": "any", "zjson": "any", "json": "anynu", "csv": "csv", "tsv": "csv",
-	"zeek": "multi", "table": "multi", "text": "multi", "vng": "any", "lake": "lake", "arrows": "uniform", "parquet": "uniform"}
+	"zeek": "multi", "table": "multi", "text": "multi", "vng": "anynull", "lake": "lake", "arrows": "uniform", "parquet": "uniform"}
 var losslessFormat = map[string]bool{"zng": true, "zson": true, "zjson": true, "vng": true}
 
 func outURI(name string) *storage.URI {
